@@ -28,7 +28,7 @@ RULE += ' ' + 'In 30 % of the multi-process throttle runs one calling process is
 RULE += ' ' + "In 40 % of the multi-process throttle runs the processes' functions carry different module names under the one name= argument."
 ASSUMPTIONS = ['throttle is given time_func/sleep_func bound to the virtual clock (the seam the recipe offers); a virtual sleep lasts at least the requested time plus >= 1 microsecond',
                'Averager values are dyadic rationals so sums are exact in any order']
-PROBES = ('throttle_delayed', 'throttle_calls', 'throttle_raising_calls', 'throttle_across_processes', 'throttle_after_restart', 'avg_pops', 'lock_wait', 'handed_over_by_pickle', 'caller_killed', 'same_name_other_module')
+PROBES = ('throttle_delayed', 'throttle_calls', 'throttle_raising_calls', 'throttle_across_processes', 'throttle_after_restart', 'avg_pops', 'lock_wait', 'handed_over_by_pickle', 'caller_killed', 'same_name_other_module', 'json_disk')
 TECHNIQUE = 'deterministic simulation: seeded schedules + linearizability against (total,count); virtual-clock arrival patterns with a window-bound oracle over recorded start times'
 LEVEL_TEXT = ('seeded exploration of adder/popper interleavings decided by a linearizability search, and of arrival patterns x rates on '
               'a virtual clock decided by the exact window bound over all pairs of recorded start times plus completion of every call.')
@@ -89,6 +89,7 @@ def gen_case(seed, tier):
     if cfg['procs'] and rng.random() < 0.3:
         cfg['handoff'] = 'pickle'
     cfg['modules'] = cfg['procs'] and rng.random() < 0.4
+    cfg['json_disk'] = rng.random() < 0.2
     # a restart: after the first callers are done, a new process on the same directory whose clock reads much LOWER (a
     # monotonic clock after a reboot, a device without a battery-backed clock) decorates the function again and calls it
     cfg['reboot'] = rng.random() < 0.15
@@ -192,10 +193,13 @@ def run_throttle(case):
     sim = world.sim
     try:
         dc = world.dc
+        dkw = {'disk': dc.JSONDisk} if cfg.get('json_disk') else {}      # the bucket is a cache value: any Disk must do
+        if dkw:
+            probes['json_disk'] = 1
         if cfg['target'] == 'fanout':
-            cache = dc.FanoutCache(world.path('c'), shards=cfg['shards'])
+            cache = dc.FanoutCache(world.path('c'), shards=cfg['shards'], **dkw)
         else:
-            cache = dc.Cache(world.path('c'))
+            cache = dc.Cache(world.path('c'), **dkw)
         starts = []
         arrivals_log = []
         count, seconds = cfg['count'], cfg['seconds']
@@ -233,7 +237,7 @@ def run_throttle(case):
             def fn():
                 work = globals_work[0]
                 if cfg.get('procs'):
-                    own = dc.FanoutCache(world.path('c'), shards=cfg['shards']) if cfg['target'] == 'fanout' else dc.Cache(world.path('c'))
+                    own = dc.FanoutCache(world.path('c'), shards=cfg['shards'], **dkw) if cfg['target'] == 'fanout' else dc.Cache(world.path('c'), **dkw)
                     if cfg.get('handoff') == 'pickle':
                         # the process is handed the parent's cache object (multiprocessing pickles it) instead of opening the directory
                         import pickle
@@ -282,7 +286,7 @@ def run_throttle(case):
         def rebooted():
             while len(done1) < len(cfg['arrivals']):
                 sim.sleep(0.5)
-            own = dc.FanoutCache(world.path('c'), shards=cfg['shards']) if cfg['target'] == 'fanout' else dc.Cache(world.path('c'))
+            own = dc.FanoutCache(world.path('c'), shards=cfg['shards'], **dkw) if cfg['target'] == 'fanout' else dc.Cache(world.path('c'), **dkw)
             opened.append(own)
 
             def again(who):
